@@ -41,7 +41,7 @@ def handler(case):
     for mg in mgs:
         dist = mg.distribution_network
         mode = mg.mode.name
-        prev_open = False
+        prev_open = False; second_seen = False
         for r in info:
             if r["phase"] == "fail" and r["was_connected"]:
                 l = v.ps.get_comp(r["line"])
@@ -57,9 +57,14 @@ def handler(case):
                     viols.append(("c14.reconnect-before-parent", f"increment {r['k']}: {mode} microgrid reconnects while the breaker of {dist.name} is open and its sectioning time still runs ({r['timers'][dist.name]} h left)"))
                 if mode == "SURVIVAL" and prev_open and r["dist_failed"][dist.name] and not r["cb_open"][mg.name]:
                     viols.append(("c14.survival", f"increment {r['k']}: SURVIVAL microgrid reconnected although {dist.name} still has a failed line {r['failed']}"))
+                if mg.name in r.get("open_no_reason", []):
+                    viols.append(("c14.separated-without-reason", f"increment {r['k']}{' of the second iteration' if second_seen else ''}: {mode} microgrid is separated although its sectioning time has run out, "
+                                  f"its own connection is healthy and {dist.name} has no failed line (failed lines: {r['failed']}, network flag failed_line={r['dist_failed'][dist.name]})"))
                 prev_open = r["cb_open"][mg.name]
             elif r["phase"] == "fail":
                 prev_open = r["cb_open"][mg.name]
+            elif r["phase"] == "reset":
+                prev_open = False; second_seen = True
         if single is not None and not auto:
             k0, lname = single
             l = v.ps.get_comp(lname)
@@ -75,7 +80,7 @@ def handler(case):
                         if k0 <= r["k"] < k0 + need and not r["cb_open"][mg.name]:
                             viols.append(("c14.reconnect-early", f"{mode} microgrid reconnected in increment {r['k']} before the sectioning time elapsed"))
         # faults only inside the microgrid: the distribution customers are never interrupted
-        if all(v.ps.get_comp(nm).parent_network is mg for fl in case["faults"].values() for nm, _ in fl):
+        if not case.get("second") and all(v.ps.get_comp(nm).parent_network is mg for fl in case["faults"].values() for nm, _ in fl):
             for b in dist.buses:
                 if b.acc_outage_time.get_hours() != 0 or b.acc_p_energy_shed != 0:
                     viols.append(("c14.mg-fault-interrupts-dist", f"only microgrid lines failed but {b.name} of {dist.name} was interrupted for {b.acc_outage_time.get_hours()} h"))
@@ -163,6 +168,18 @@ def gen(rng, nm, na):
             if f"S{ln}" not in nodev:
                 nodev.append(f"S{ln}")
             c["faults"] = {str(rng.randint(1, 4)): [[ln, str(rng.choice([F(2), F(3), F(7, 2)]))]]}
+            c.pop("single", None)
+        if j % 5 == 2 and d_lines:
+            # two iterations on the same objects: the first ends while a line of the hosting network is failed; after the reset a
+            # fault inside the microgrid (or in the hosting network): the microgrid must come back as the property says
+            Tq, dtq = F(c["spec"]["ctrl"]["T"]), F(c["dt"])
+            k0 = rng.randint(1, 3)
+            first_n = k0 + rng.randint(0, 2)
+            second_faults = {str(rng.randint(1, 3)): [[rng.choice(mg_lines if rng.random() < 0.7 else d_lines), str(rng.choice([F(1), F(2)]))]]}
+            c["spec"]["mg"]["mode"] = rng.choice(["survival", "survival", "full", "limited"])
+            c["faults"] = {str(k0): [[rng.choice(d_lines), "40"]]}
+            c["second"] = {"faults": second_faults, "n_inc": c["n_inc"]}
+            c["n_inc_first"] = first_n
             c.pop("single", None)
         cases.append(c)
     return cases
